@@ -668,6 +668,23 @@ def mutate(rng, data, kind=None):
     return d, kind
 
 
+def deterministic_mutants(per_kind=12):
+    """every mutation class drawn `per_kind` times from a FIXED random stream (independent of VERIF_SEED): what a check
+    claims to catch must not depend on the luck of the seed → [(stream, kind, is_response)]"""
+    import random
+    rng = random.Random(20260922)
+    out = []
+    for kind in MUTATIONS:
+        for i in range(per_kind):
+            base = gen_request(rng) if i % 4 else b"".join(gen_request(rng) for _ in range(2))
+            data, k = mutate(rng, base, kind)
+            out.append((data, k, False))
+        for i in range(max(2, per_kind // 4)):
+            data, k = mutate(rng, gen_response(rng, True), kind)
+            out.append((data, k, True))
+    return out
+
+
 def cuts_single(data):
     return [[data[:i], data[i:]] for i in range(1, len(data))]
 
